@@ -178,7 +178,8 @@ def generate_and_run(rng, profile, max_client_ops=None):
     import core_run
 
     kinds, lens, script, max_len = gen_tables(rng, profile)
-    case = {"kinds": kinds, "lens": lens, "script": list(script), "max_len": max_len,
+    styles = [rng.choice([0, 0, 0, 1, 2]) for _ in range(NTRACKS)]   # URI spellings (scheme case, no scheme)
+    case = {"kinds": kinds, "lens": lens, "script": list(script), "max_len": max_len, "styles": styles,
             "volume": rng.choice([None, 0, 40, 100]) if profile == "restore" else None,
             "mute": rng.choice([None, True, False]) if profile == "restore" else None,
             "ops": [], "profile": profile}
